@@ -330,3 +330,93 @@ def _domain_apply_connection(n):
 DOMAIN[F + 'get_mod_apply_connection_choice'] = _domain_apply_connection
 DOMAIN[N_ + 'ConnectionChoiceNode.get_excluded_edges'] = _domain_conn_edges('get_excluded_edges')
 DOMAIN[N_ + 'ConnectionChoiceNode.get_deriving_edges'] = _domain_conn_edges('get_deriving_edges')
+
+
+# ---------------------------------------------------------------- ConnectionChoiceNode.validate_conn_edges (C11)
+# graph-level validity of a set of connection edges: the edges are counted into the connection matrix of the
+# connectors as the matrix generator orders them, and that matrix is what the generator's validity test judges
+CLASSES['MatrixGenX'] = {}
+CONTRACTS[N_ + 'ConnectionChoiceNode.validate_conn_edges'] = dict(
+    properties=['C11'],
+    types={'self': 'Ref[ConnectionChoiceNode]', 'dsg': 'Ref', 'edges': 'List[Tuple[Ref,Ref]]'},
+    returns='Bool',
+    funcs={'VALID': (['Np2[Int]'], 'Bool')},       # AggregateAssignmentMatrixGenerator.validate_matrix of this choice
+    locals={'matrix_gen': 'Ref[MatrixGenX]', 'node_map': 'Tuple[List[Ref],List[Ref]]', 'matrix': 'Np2[Int]',
+            'src_idx_map': 'Dict[Ref,Int]', 'tgt_idx_map': 'Dict[Ref,Int]'},
+    post_locals=['node_map', 'matrix'],
+    calls={
+        'self._get_matrix_gen': dict(params=['dsg'], types={}, returns='Tuple[Ref[MatrixGenX],Tuple[List[Ref],List[Ref]]]', modifies=[], assumed=True, receiver='self',
+                                     # connectors of one side are pairwise distinct nodes
+                                     ensures=['forall(a, 0, len(result[1][0]), forall(b, 0, len(result[1][0]), implies(a != b, result[1][0][a] != result[1][0][b])))',
+                                              'forall(a, 0, len(result[1][1]), forall(b, 0, len(result[1][1]), implies(a != b, result[1][1][a] != result[1][1][b])))']),
+        'matrix_gen.validate_matrix': dict(params=['m'], types={}, returns='Bool', modifies=[], assumed=True, receiver='matrix_gen', pure_expr='VALID(m)'),
+    },
+    defs={
+        'isrc': (('x',), 'exists(a, 0, len(node_map[0]), node_map[0][a] == x)'),
+        'itgt': (('x',), 'exists(b, 0, len(node_map[1]), node_map[1][b] == x)'),
+    },
+    loops={'for src, tgt in edges': dict(index='k', invariant={
+        'known-so-far': 'forall(q, 0, k, isrc(edges[q][0]) and itgt(edges[q][1]))',
+        'shape': 'matrix.shape[0] == len(node_map[0]) and matrix.shape[1] == len(node_map[1])',
+        'counts-so-far': 'forall(a, 0, len(node_map[0]), forall(b, 0, len(node_map[1]), matrix[a, b] == count(edges, (node_map[0][a], node_map[1][b]), k)))',
+    })},
+    ensures={
+        'foreign-connector-rejected': ('property', 'implies(exists(q, 0, len(edges), not (isrc(edges[q][0]) and itgt(edges[q][1]))), result == False)'),
+        'matrix-counts-the-edges': ('property',
+            'implies(forall(q, 0, len(edges), isrc(edges[q][0]) and itgt(edges[q][1])), '
+            'forall(a, 0, len(final_node_map[0]), forall(b, 0, len(final_node_map[1]), final_matrix[a, b] == count(edges, (final_node_map[0][a], final_node_map[1][b]), len(edges)))))'),
+        'judged-by-the-generator': ('property', 'implies(forall(q, 0, len(edges), isrc(edges[q][0]) and itgt(edges[q][1])), result == VALID(final_matrix))'),
+    },
+    modifies=[],
+)
+
+
+def _domain_validate_conn_edges(n):
+    import os
+    import random
+    import numpy as np
+    from pyvc.replay import segment_callable, SegmentResult
+    from adsg_core.graph.adsg_basic import BasicDSG
+    from adsg_core.graph.adsg_nodes import NamedNode, ConnectorNode
+    key = N_ + 'ConnectionChoiceNode.validate_conn_edges'
+    seg = segment_callable(key, dict(CONTRACTS[key], stop_before='return matrix_gen.validate_matrix'),
+                           os.environ.get('VERIF_REPO', '/repo'))
+    rng = random.Random(1111 + int(os.environ.get('VERIF_SEED', '0') or 0))
+    specs = ['*', '+', '?', 'req', '0..2', '1..2', [0, 2], 2]
+    for _ in range(n):
+        ns, nt = rng.randint(1, 2), rng.randint(1, 3)
+        root = NamedNode('R')
+        srcs = [ConnectorNode(f's{i}', deg_spec=rng.choice(specs), repeated_allowed=rng.random() < 0.5) for i in range(ns)]
+        tgts = [ConnectorNode(f't{i}', deg_spec=rng.choice(specs), repeated_allowed=rng.random() < 0.5) for i in range(nt)]
+        dsg = BasicDSG()
+        dsg.add_edges([(root, c) for c in srcs + tgts])
+        choice = dsg.add_connection_choice('K', srcs, tgts)
+        dsg = dsg.set_start_nodes({root})
+        foreign = ConnectorNode('foreign', deg_spec='*')
+        edges = []
+        for _ in range(rng.randint(0, 4)):
+            r = rng.random()
+            if r < 0.08:
+                edges.append((foreign, rng.choice(tgts)))
+            elif r < 0.16:
+                edges.append((rng.choice(tgts), rng.choice(srcs)))     # wrong way round
+            else:
+                edges.append((rng.choice(srcs), rng.choice(tgts)))
+        try:
+            gen_, nmap = choice._get_matrix_gen(dsg)
+        except Exception:  # noqa
+            continue
+        # node_map is also given up front: a run that returns early (foreign connector) has no locals to show
+        env = {'self': choice, 'dsg': dsg, 'edges': list(edges), 'node_map': nmap, 'final_node_map': nmap,
+               'VALID': (lambda m, gen_=gen_: bool(gen_.validate_matrix(np.array(m))))}
+
+        def call(choice=choice, dsg=dsg, edges=edges):
+            r = seg(self=choice, dsg=dsg, edges=list(edges))
+            return SegmentResult(bool(choice.validate_conn_edges(dsg, list(edges))), r.locals if r.stopped else
+                                 {k: v for k, v in r.locals.items()}, r.stopped)
+        yield (env, call, {'Ref': srcs + tgts + [foreign]},
+               f'validate_conn_edges(srcs={[c.get_full_deg_str() for c in srcs]}, tgts={[c.get_full_deg_str() for c in tgts]}, '
+               f'edges={[(str(a), str(b)) for a, b in edges]})')
+
+
+DOMAIN[N_ + 'ConnectionChoiceNode.validate_conn_edges'] = _domain_validate_conn_edges
